@@ -102,6 +102,83 @@ class UseIndex:
         return self.uses.get(l, [])
 
 
+ESCALATE_CALLS = ("nomt::store::Store::poison",)
+
+
+def err_arm_escalates(body, sw_bb, local, pl):
+    """the value matched at switch sw_bb is a Result; is its Err arm an escalation?  On every path from the Err
+    arm to a return, one of: an error is returned (`_0 = Err(..)`, `?`), the thread panics, the store is
+    poisoned, or the error value itself is moved on (into a call other than formatting, an aggregate, a field)."""
+    t = body.term(sw_bb)
+    ty = body.place_ty(pl)
+    if not ty.startswith("core::result::Result<"):
+        return True, "not a Result"
+    err_edges = [tb for (v, tb) in t["vals"] if v == "1"]
+    if not err_edges:
+        # `if let Ok(..)` style: the otherwise edge is the Err arm when the only listed value is 0
+        if [v for (v, tb) in t["vals"]] == ["0"]:
+            err_edges = [t["else"]]
+        else:
+            return True, "no Err edge"
+    if body.id.endswith("as core::ops::drop::Drop>::drop"):
+        return True, "inside Drop (nothing to return to)"
+    if not body.local_ty(0).startswith("core::result::Result<"):
+        # the function cannot propagate an error: matching on the outcome and returning a value that depends on it
+        # (a probe such as check_iou_permissions) is a way of reporting it
+        return True, "function does not return a Result"
+    esc = set(body.err_blocks())
+    for b in range(body.n):
+        tt = body.term(b)
+        if tt["k"] == "call":
+            c = tt.get("callee") or ""
+            if c in ESCALATE_CALLS or (c.endswith("::store") and "atomic" in c):
+                esc.add(b)
+            # a fallback: the Err arm retries with another fallible I/O operation (itself subject to R1)
+            if is_io_result(body.place_ty(tt["dest"])) and not c.endswith("::from_residual"):
+                esc.add(b)
+            # the error payload moved into a non-formatting call / channel / constructor
+            for a in tt["args"]:
+                if a["k"] == "move" and a["pl"]["l"] == local and "@Err" in (a["pl"].get("p") or []):
+                    esc.add(b)
+        for st in body.stmts(b):
+            if st["k"] == "assign" and st["rv"]["k"] in ("use", "agg"):
+                ops = st["rv"].get("ops", []) + ([st["rv"]["op"]] if "op" in st["rv"] else [])
+                for o in ops:
+                    if o["k"] == "move" and o["pl"]["l"] == local and "@Err" in (o["pl"].get("p") or []):
+                        # follow one step: the moved error must end up somewhere other than a drop
+                        dl = st["pl"]["l"]
+                        if st["pl"].get("p") or dl == 0:
+                            esc.add(b)
+                        else:
+                            esc.add(("local", dl))
+    # locals that received the error payload: escalation if they are later moved into _0 / a call / an aggregate
+    moved = {x[1] for x in esc if isinstance(x, tuple)}
+    esc = {x for x in esc if not isinstance(x, tuple)}
+    for b in range(body.n):
+        tt = body.term(b)
+        if tt["k"] == "call":
+            c = tt.get("callee") or ""
+            fmt = "fmt::" in c or c.endswith("_print") or "Argument" in c
+            for a in tt["args"]:
+                if a["k"] in ("move",) and not a["pl"].get("p") and a["pl"]["l"] in moved and not fmt:
+                    esc.add(b)
+        for st in body.stmts(b):
+            if st["k"] == "assign" and st["rv"]["k"] in ("use", "agg"):
+                ops = st["rv"].get("ops", []) + ([st["rv"]["op"]] if "op" in st["rv"] else [])
+                for o in ops:
+                    if o["k"] == "move" and not o["pl"].get("p") and o["pl"]["l"] in moved:
+                        if st["pl"].get("p") or st["pl"]["l"] == 0 or st["rv"]["k"] == "agg":
+                            esc.add(b)
+                        else:
+                            moved.add(st["pl"]["l"])
+    rets = set(body.return_blocks())
+    rem = {b for b in range(body.n) if body.is_cleanup(b)} | esc
+    reach = body.reachable([e for e in err_edges if e not in esc], rem)
+    if reach & rets:
+        return False, "a path from the Err arm reaches the end of the function"
+    return True, "Err arm escalates"
+
+
 def consumption(body, ui, local, fields=(), seen=None, depth=0):
     """Is the value held in `local` (optionally its sub-place `fields`) consumed by an accepted idiom?
     returns (consumed: bool, reasons: [str], discards: [str])"""
@@ -119,6 +196,10 @@ def consumption(body, ui, local, fields=(), seen=None, depth=0):
         # the use must touch the tracked sub-place (prefix relation either way)
         n = min(len(pf), len(fields))
         if tuple(pf[:n]) != tuple(fields[:n]):
+            continue
+        if kind in ("assign", "ref", "agg", "binop") and any(e.startswith("@") for e in (pl.get("p") or [])) and not fields:
+            # extraction of the Ok / Err payload happens after the match on the discriminant; what counts
+            # is what that match does on its Err arm (judged at the `discr` use)
             continue
         if kind == "arg":
             callee = obj.get("callee") or "<fnptr>"
@@ -166,9 +247,14 @@ def consumption(body, ui, local, fields=(), seen=None, depth=0):
         elif kind == "discr":
             # scrutinised if the discriminant feeds a switch
             dl = dest["l"]
-            if any(u[0] == "switch" for u in ui.of(dl)):
-                consumed = True
-                reasons.append("matched at %s" % obj.get("ln"))
+            sws = [u for u in ui.of(dl) if u[0] == "switch"]
+            if sws:
+                ok_arm, why = err_arm_escalates(body, sws[0][1], local, pl)
+                if ok_arm:
+                    consumed = True
+                    reasons.append("matched at %s (%s)" % (obj.get("ln"), why))
+                else:
+                    discards.append("match at %s whose Err arm neither returns an error, panics, poisons nor hands the error on (%s)" % (obj.get("ln"), why))
         elif kind == "agg":
             consumed = True
             reasons.append("moved into aggregate at %s" % obj.get("ln"))
